@@ -179,4 +179,172 @@ theorem fill_grid_returns (G : Grid α) (ht : 0 < G.nt) (hm : 0 < G.nmu) (hp : 0
       rw [hc0] at this hcu'
       exact this hcu'
 
+/-! ### the mu and phi edges collected by `fill` -/
+
+def muKey (c : Cur) (k : Block α) : List α :=
+  match k.mu with | some s => if (curStep c k).1 == 0 then [s.a] else [] | none => []
+def phiKey (c : Cur) (k : Block α) : List α :=
+  match k.phi with | some s => if (curStep c k).1 == 0 && (curStep c k).2.1 == 0 then [s.a] else [] | none => []
+
+def muKeys (c : Cur) : List (Block α) → List α
+  | [] => []
+  | k :: ks => muKey c k ++ muKeys (curStep c k) ks
+def phiKeys (c : Cur) : List (Block α) → List α
+  | [] => []
+  | k :: ks => phiKey c k ++ phiKeys (curStep c k) ks
+
+theorem stepKeys_mubins (b : B α) (k : Block α) : (stepKeys b k).mubins = b.mubins ++ muKey b.cur k := by
+  unfold stepKeys muKey curStep B.cur
+  cases k.time <;> cases k.mu <;> cases k.phi <;> simp <;> split <;> simp
+
+theorem stepKeys_phibins (b : B α) (k : Block α) : (stepKeys b k).phibins = b.phibins ++ phiKey b.cur k := by
+  unfold stepKeys phiKey curStep B.cur
+  cases k.time <;> cases k.mu <;> cases k.phi <;> simp <;> split <;> simp
+
+theorem fill_keybins : ∀ (d : List (Block α)) (b b' : B α), fill b d = .ok b' →
+    b'.mubins = b.mubins ++ muKeys b.cur d ∧ b'.phibins = b.phibins ++ phiKeys b.cur d := by
+  intro d
+  induction d with
+  | nil => intro b b' h; rw [fill] at h; cases h; simp [muKeys, phiKeys]
+  | cons k ks ih =>
+    intro b b' h
+    rw [fill_cons] at h
+    cases hr : fillRows (stepKeys b k) k.rows 0 k.rows with
+    | error e => rw [hr] at h; cases h
+    | ok b1 =>
+      rw [hr] at h
+      obtain ⟨_, c1, _, _, _, _, _, c8, c9, _⟩ := fillRows_ok k.rows k.rows 0 _ _ hr
+      obtain ⟨f1, _⟩ := stepKeys_facts b k
+      have finish : ∀ b2 : B α, b2.mubins = b1.mubins → b2.phibins = b1.phibins → b2.cur = b1.cur →
+          fill b2 ks = .ok b' →
+          b'.mubins = b.mubins ++ muKeys b.cur (k :: ks) ∧ b'.phibins = b.phibins ++ phiKeys b.cur (k :: ks) := by
+        intro b2 e1 e2 e3 hf
+        obtain ⟨i1, i2⟩ := ih b2 b' hf
+        rw [i1, i2, e1, e2, e3, c1, c8, c9, f1, stepKeys_mubins, stepKeys_phibins]
+        simp [muKeys, phiKeys, List.append_assoc]
+      cases hi : k.integ with
+      | none => rw [hi] at h; exact finish b1 rfl rfl rfl h
+      | some v =>
+        rw [hi] at h
+        simp only at h
+        split at h
+        · exact finish { b1 with integ := ((b1.itime, b1.imu, b1.iphi), v) :: b1.integ } rfl rfl rfl h
+        · cases h
+
+def muOf (p : Cur × Block α) : List α :=
+  match p.2.mu with | some s => if p.1.1 == 0 then [s.a] else [] | none => []
+def phiOf (p : Cur × Block α) : List α :=
+  match p.2.phi with | some s => if p.1.1 == 0 && p.1.2.1 == 0 then [s.a] else [] | none => []
+
+theorem muKeys_zip (c : Cur) (d : List (Block α)) : muKeys c d = ((cursors c d).zip d).flatMap muOf := by
+  induction d generalizing c with
+  | nil => rfl
+  | cons k ks ih => simp only [muKeys, cursors, List.zip_cons_cons, List.flatMap_cons, ih]; rfl
+
+theorem phiKeys_zip (c : Cur) (d : List (Block α)) : phiKeys c d = ((cursors c d).zip d).flatMap phiOf := by
+  induction d generalizing c with
+  | nil => rfl
+  | cons k ks ih => simp only [phiKeys, cursors, List.zip_cons_cons, List.flatMap_cons, ih]; rfl
+
+theorem zip_flatMap {ι β γ : Type} (l : List ι) (f : ι → List β) (g : ι → List γ)
+    (h : ∀ x ∈ l, (f x).length = (g x).length) :
+    (l.flatMap f).zip (l.flatMap g) = l.flatMap fun x => (f x).zip (g x) := by
+  induction l with
+  | nil => rfl
+  | cons a r ih =>
+    simp only [List.flatMap_cons]
+    rw [List.zip_append (h a (by simp)), ih (fun x hx => h x (by simp [hx]))]
+
+theorem zip_self {ι : Type} (l : List ι) : l.zip l = l.map fun x => (x, x) := by
+  induction l with
+  | nil => rfl
+  | cons a r ih => simp [ih]
+
+/-- the blocks of a printed grid, each with the indices it is read under -/
+theorem zip_grid (G : Grid α) (hn : 0 < G.nphi) :
+    (cursors (0, 0, 0) G.blocks).zip G.blocks =
+      (List.range G.nt).flatMap fun it => (List.range G.nmu).flatMap fun im =>
+        (List.range G.nphi).map fun ip => ((it, im, ip), G.blk it im ip) := by
+  rw [cursors_blocks G hn]
+  unfold Grid.blocks Grid.mid Grid.inner
+  rw [zip_flatMap _ _ _ (fun it _ => by simp [List.length_flatMap])]
+  congr 1
+  funext it
+  rw [zip_flatMap _ _ _ (fun im _ => by simp)]
+  congr 1
+  funext im
+  rw [List.zip_map, zip_self, List.map_map]
+  rfl
+
+theorem flatMap_single_map {ι γ : Type} (l : List ι) (f : ι → γ) : (l.flatMap fun x => [f x]) = l.map f := by
+  induction l with
+  | nil => rfl
+  | cons a r ih => simp [List.flatMap_cons, ih]
+
+theorem flatMap_range_head {γ : Type} (n : Nat) (hn : 0 < n) (f : Nat → List γ) (h : ∀ i, 1 ≤ i → f i = []) :
+    (List.range n).flatMap f = f 0 := by
+  have hr : List.range n = 0 :: List.range' 1 (n - 1) := by
+    rw [List.range_eq_range']
+    have : n = (n - 1) + 1 := by omega
+    conv => lhs; rw [this, List.range'_succ]
+  rw [hr, List.flatMap_cons]
+  have : (List.range' 1 (n - 1)).flatMap f = [] := by
+    apply List.flatMap_eq_nil_iff.2
+    intro x hx
+    exact h x (List.mem_range'_1.1 hx).1
+  rw [this, List.append_nil]
+
+theorem muOf_grid (G : Grid α) (it im ip : Nat) :
+    muOf ((it, im, ip), G.blk it im ip) = if ip = 0 then (if it = 0 then [(G.mstep im).1] else []) else [] := by
+  unfold muOf Grid.blk
+  by_cases h : ip = 0 <;> by_cases h' : it = 0 <;> simp [h, h']
+
+theorem phiOf_grid (G : Grid α) (it im ip : Nat) :
+    phiOf ((it, im, ip), G.blk it im ip) = if it = 0 ∧ im = 0 then [(G.pstep ip).1] else [] := by
+  unfold phiOf Grid.blk
+  by_cases h : it = 0 <;> by_cases h' : im = 0 <;> simp [h, h']
+
+/-- the mu edges `fill` collects on a printed grid: the first printed bound of every mu zone, in order -/
+theorem muKeys_grid (G : Grid α) (ht : 0 < G.nt) (hm : 0 < G.nmu) (hp : 0 < G.nphi) :
+    muKeys (0, 0, 0) G.blocks = (List.range G.nmu).map fun im => (G.mstep im).1 := by
+  rw [muKeys_zip, zip_grid G hp, List.flatMap_assoc]
+  have inner : ∀ it im, ((List.range G.nphi).map fun ip => ((it, im, ip), G.blk it im ip)).flatMap muOf =
+      if it = 0 then [(G.mstep im).1] else [] := by
+    intro it im
+    rw [List.flatMap_map]
+    rw [flatMap_range_head G.nphi hp _ (fun i hi => by rw [muOf_grid]; simp; omega)]
+    rw [muOf_grid]; simp
+  rw [flatMap_range_head G.nt ht]
+  · rw [List.flatMap_assoc]
+    simp only [inner, if_true]
+    rw [flatMap_single_map]
+  · intro it hit
+    rw [List.flatMap_assoc]
+    apply List.flatMap_eq_nil_iff.2
+    intro im _
+    rw [inner, if_neg (by omega)]
+
+/-- the phi edges `fill` collects on a printed grid: the first printed bound of every phi zone, in order -/
+theorem phiKeys_grid (G : Grid α) (ht : 0 < G.nt) (hm : 0 < G.nmu) (hp : 0 < G.nphi) :
+    phiKeys (0, 0, 0) G.blocks = (List.range G.nphi).map fun ip => (G.pstep ip).1 := by
+  rw [phiKeys_zip, zip_grid G hp, List.flatMap_assoc]
+  have inner : ∀ it im, ((List.range G.nphi).map fun ip => ((it, im, ip), G.blk it im ip)).flatMap phiOf =
+      if it = 0 ∧ im = 0 then (List.range G.nphi).map fun ip => (G.pstep ip).1 else [] := by
+    intro it im
+    rw [List.flatMap_map]
+    by_cases h : it = 0 ∧ im = 0
+    · simp only [phiOf_grid, h, and_self, if_true]
+      rw [flatMap_single_map]
+    · simp only [phiOf_grid, h, if_false]
+      simp
+  rw [flatMap_range_head G.nt ht]
+  · rw [List.flatMap_assoc, flatMap_range_head G.nmu hm]
+    · rw [inner]; simp
+    · intro im him; rw [inner, if_neg (by omega)]
+  · intro it hit
+    rw [List.flatMap_assoc]
+    apply List.flatMap_eq_nil_iff.2
+    intro im _
+    rw [inner, if_neg (by omega)]
+
 end T4Spec
